@@ -239,14 +239,16 @@ static const char *kCases[] = {
     "vector<int>/empty", "vector<int>/heap", "vector<TRs>/heap", "SmallVector<TCs,4>/inline", "SmallVector<TCs,4>/heap", "SmallVector<TRs,3>/inline-full",
     "FixedCapacityVector<int,8>/partial", "FixedCapacityVector<TRs,8>/full", "FlatSet<int>/heap", "FlatSet<TCs,SmallVector<4>>/inline", "FlatSet<TRs>/empty",
     "SmallSet<int,4>/inline", "SmallSet<int,4>/large", "SmallSet<TCs,4,FlatSet>/inline", "SmallSet<TCs,4,FlatSet>/large", "SmallSet<TRs,3>/empty", "FlatSet<int>/200", "vector<TCs>/500", "SmallSet<int,4>/large-150", "FlatSet<TRs,SmallVector<8>>/100",
-    "FlatSet<int,DualLess>/heap", "FlatSet<int,DualLess>/200", "SmallSet<int,4,DualLess>/large", "SmallSet<TCs,4,DualLess,FlatSet>/inline", "SmallSet<TCs,4,DualLess,FlatSet>/large"};
-static const int kNCases = 25;
+    "FlatSet<int,DualLess>/heap", "FlatSet<int,DualLess>/200", "SmallSet<int,4,DualLess>/large", "SmallSet<TCs,4,DualLess,FlatSet>/inline", "SmallSet<TCs,4,DualLess,FlatSet>/large",
+    "vector<int>/40000 (copies of 160 KB: the large-block path of the stock allocator)"};
+static const int kNCases = 26;
 
 long run_case(int c, int nthreads, int iters, unsigned seed, long &ov) {
   typedef amc::FlatSet<TCs, std::less<TCs>, amc::allocator<TCs>, amc::SmallVector<TCs, 4> > FSsv;
   typedef amc::SmallSet<TCs, 4, std::less<TCs>, amc::allocator<TCs>, amc::FlatSet<TCs, std::less<TCs>, amc::allocator<TCs> > > SSf;
   typedef amc::SmallSet<TCs, 4, DualLess<TCs>, amc::allocator<TCs>, amc::FlatSet<TCs, DualLess<TCs>, amc::allocator<TCs> > > SSfd;
   switch (c) {
+    case 25: return vec_case<amc::vector<int> >(40000, 30, nthreads, iters / 40 + 2, seed, ov);
     case 20: return flat_case<amc::FlatSet<int, DualLess<int> > >(15, 30, nthreads, iters, seed, ov);
     case 21: return flat_case<amc::FlatSet<int, DualLess<int> > >(200, 30, nthreads, iters, seed, ov);
     case 22: return set_case<amc::SmallSet<int, 4, DualLess<int> >, false>(12, 30, nthreads, iters, seed, ov);
